@@ -1,7 +1,7 @@
 (** C06 — non-vacuity: every hypothesis of the property theorems has instances, and the model
     runs on literals (small, competition and near-2^31 moduli, prime and composite). *)
 From Coq Require Import ZArith Lia Bool String.
-From RlibV Require Import Common.Iter C06.Fixed C06.Model C06.Properties.
+From RlibV Require Import Common.Iter C06.Fixed C06.Model C06.Corr C06.Properties.
 Open Scope Z_scope.
 Open Scope string_scope.
 
@@ -55,3 +55,32 @@ Proof. exists 6, 6. repeat split. Qed.
 Example ex_render0 : render 0 = Some "0". Proof. reflexivity. Qed.
 Example ex_render : render 2147483646 = Some "2147483646". Proof. vm_compute. reflexivity. Qed.
 Example ex_render_max : render 4294967295 = Some "4294967295". Proof. vm_compute. reflexivity. Qed.
+
+Example ex_write_thm : exists s, render 4294967295 = Some s /\ sval s = 4294967295.
+Proof. apply c06_write. lia. Qed.
+Example ex_sval : sval "2147483646" = 2147483646. Proof. vm_compute. reflexivity. Qed.
+Example ex_inv_64 : exists x, inv_loop 2147483647 64 1327217884 = inr (Some x).
+Proof. eexists. vm_compute. reflexivity. Qed.   (* M/phi: the longest run of the loop *)
+
+(** correspondence cases accepted by model_check exist (so c06_model_implies_spec is not vacuous) *)
+Example ex_case_inv :
+  model_check (C 2147483647 (OInv 2) (ValS 1073741824 "1073741824")) = true.
+Proof. vm_compute. reflexivity. Qed.
+Example ex_case_div :
+  model_check (C 12 (OBin BDiv true 7 (-7)) (ValS 11 "11")) = true.
+Proof. vm_compute. reflexivity. Qed.
+Example ex_case_spec :
+  spec_check (C 12 (OBin BDiv true 7 (-7)) (ValS 11 "11")) = true.
+Proof. vm_compute. reflexivity. Qed.
+Example ex_case_spec_rejects :
+  spec_check (C 12 (OBin BDiv true 7 (-7)) (ValS 10 "10")) = false.
+Proof. vm_compute. reflexivity. Qed.
+Example ex_pow_65 : pow_loop 2147483647 65 2 (2 ^ 64 - 1) = inr (Some 32768).
+Proof. vm_compute. reflexivity. Qed.
+Example ex_canon_dec : canon_dec 2147483646 "2147483646" = true. Proof. vm_compute. reflexivity. Qed.
+Example ex_canon_dec_leading_zero : canon_dec 7 "07" = false. Proof. vm_compute. reflexivity. Qed.
+Example ex_canon_dec_zero : canon_dec 0 "0" = true. Proof. vm_compute. reflexivity. Qed.
+Example ex_canon_dec_nondigit : canon_dec 7 "7 " = false. Proof. vm_compute. reflexivity. Qed.
+Example ex_case_strict :
+  spec_strict (C 12 (OBin BDiv true 7 (-7)) (ValS 11 "11")) = true.
+Proof. apply c06_model_implies_spec_strict. vm_compute. reflexivity. Qed.
